@@ -46,3 +46,13 @@ pub fn address_of(s: &String) -> usize {
 pub fn through_raw(p: *const u32) -> u32 {
     unsafe { *p }
 }
+
+/// B-CURRENT: an adaptor that cuts a walk short.
+pub fn leading_positive(v: &[u32]) -> Vec<u32> {
+    v.iter().cloned().take_while(|x| *x > 0).collect()
+}
+
+/// B-GUARD: a search predicate that is not an equality test.
+pub fn first_at_least(v: &[u32], x: u32) -> Option<usize> {
+    v.iter().position(|&y| y >= x)
+}
